@@ -1,6 +1,7 @@
 import Ogen.ValidateModel_proof
 import Ogen.SecurityMask_proof
 import Ogen.FloatValidate_proof
+import Ogen.JsonAccept_proof
 /-!
 # C03 — the server accepts a body exactly when it satisfies the schema (partial)
 
@@ -9,10 +10,19 @@ Proved here: the leaf validators generated code calls (`validate.Int`, `validate
 `validate.UniqueItems`, and `validate.Float` over the exact rational values of doubles) decide the JSON Schema keywords they stand for, for **every** value (every int64
 including `minInt64`, arrays of any length), and the required-field bit mask of generated struct decoders
 reports a failure exactly when a required field is missing, for any number of fields.
-Not proved: the composition schema → IR → generated decoder (that a keyword is translated to the right
-validator call, `needValidation`, Opt/Nil boxing, sum types, `additionalProperties`). It is tied by
-posting schema-directed instances to regenerated servers and comparing with an independent reference
-validator on every run.
+Proved too, end to end on the model `JCodec` of what the templates render for the fragment *objects with named
+properties (required or optional, nullable or not), arrays with possibly nullable items and item counts,
+integers with bounds / exclusive flags / multipleOf, strings with lengths in code points, booleans*: the
+server's verdict — decode the body, then `Validate()` — is validity against the schema, for every schema of
+the fragment and every document with unique member names (`server_accepts_iff_valid`); `Validate()` on the
+decoded value is exactly the keywords on the document (`validate_is_keywords`). The model is tied on every
+run: regenerated servers of random schemas of the fragment answer random bodies (valid ones in every member
+order, values on the keyword boundaries, single-fault mutants) with the handler or 400 exactly as the model
+says (driver tag `jaccept`), and as the reference validator says.
+Not proved: the composition schema → IR → generated decoder outside that fragment (that a keyword is
+translated to the right validator call, `needValidation`, sum types, `additionalProperties`, formats,
+patterns). It is tied by posting schema-directed instances to regenerated servers and comparing with an
+independent reference validator on every run.
 -/
 namespace C03
 open ValidateM IntBounds ArrVal
@@ -58,4 +68,15 @@ example : FloatV.validate ⟨true, 0, false, true, 1, true, true, 1 / 4⟩ (Floa
   decide +kernel
 example : FloatV.validate ⟨false, 0, false, false, 0, false, true, 1 / 10⟩ (FloatV.ofBits 0x3fb999999999999a) = false := by
   decide +kernel
+/-! ### end to end on the codec fragment (`JCodec`) -/
+open JCodec in
+/-- **the server accepts a body exactly when it satisfies the schema**: type, required, nullable, integer bounds
+    with exclusive flags, multipleOf, string length in code points, item counts, at every depth; members the
+    schema does not name are free -/
+theorem server_accepts_iff_valid (t : Ty) (j : Json) (hw : t.WF) (hu : UniqueKeys j) :
+    accept t j = true ↔ SchemaValid t j := JCodec.accept_iff_schemaValid t j hw hu
+open JCodec in
+/-- `Validate()` of the decoded value says exactly what the keywords say about the document -/
+theorem validate_is_keywords (j : Json) (t : Ty) (v : Val) (hw : t.WF) (hu : UniqueKeys j)
+    (h : JCodec.decode t j = some v) : JCodec.validate t v = true ↔ Constr t j := JCodec.validate_iff j t v hw hu h
 end C03
